@@ -14,7 +14,7 @@ import (
 func init() {
 	register(&PropSpec{
 		ID:       "C11",
-		Patterns: []string{"./pkg/network", "./pkg/server", "./pkg/stagemanager"},
+		Patterns: []string{"./pkg/network", "./pkg/server", "./pkg/stagemanager", "./pkg/module/http2"},
 		Explanation: "Only orderings that are necessary for the documented behaviour are decided (the substance — no request fails around a signal — depends on two processes, kernel accept queues, fd passing and timing and is out of reach of a static argument): " +
 			"(O1) listener.Shutdown: on the non-upgrade branch the listener is closed before the drain callback, on the upgrade branch accepting is stopped before it and the listening socket is NOT closed (the new process owns it); " +
 			"(O2) activeListener.OnShutdown notifies every connection (OnShutdown event) and then waits in waitConnectionsClose(drainTime) on every path; the wait loop re-reads the active-stream gauge and is bounded by the elapsed time; " +
@@ -32,6 +32,8 @@ func runC11(c *Ctx) {
 	c.Rule("C11.O4", "connection hand-over only after stop signal and deadline; read side transferred before write side", 4)
 	c.Rule("C11.O5", "the read buffer handed over is the connection's own and is never dropped (or the hand-over tolerates nil)", 2)
 	defer c11HandOverBuffer(c)
+	c.Rule("C11.O6", "HTTP/2 graceful GOAWAY carries the highest accepted stream id; later HEADERS are ignored; one GOAWAY", 3)
+	defer c11GoAway(c)
 	c.NotDecided = append(c.NotDecided, "that no request on a new, handed-over or in-flight connection fails around SIGTERM/SIGHUP (cross-process, kernel and timing dependent)", "fd passing over the unix socket, inheritance of listeners by the new process", "HTTP/2 GOAWAY and keep-alive draining")
 
 	named := func(n string) func(cc *ssa.CallCommon) bool {
@@ -360,4 +362,86 @@ func c11HandOverBuffer(c *Ctx) {
 		}
 		c.Check("C11.O5", funcKey(fn)+":sends-read-buffer", fn.Pos(), ok, "the unread bytes of the connection travel with the descriptor", "the hand-over does not send the connection's read buffer: bytes received but not yet dispatched are lost")
 	}
+}
+
+// c11GoAway (O6): the HTTP/2 GOAWAY sent on graceful shutdown tells the truth.
+// After GOAWAY MOSN ignores every new HEADERS frame (processHeaders returns at once while inGoAway). A client may have a
+// request on the wire that MOSN will never look at; it learns that only from the last-stream-id in the GOAWAY: ids above
+// it were not processed and are retried elsewhere (on the new process after a hot upgrade). Clauses: (a) the
+// last-stream-id written is sc.maxClientStreamID on every path (a larger value makes the client wait forever for a
+// request MOSN dropped); (b) the ignore branch creates no stream; (c) goAway is idempotent (one GOAWAY per connection).
+func c11GoAway(c *Ctx) {
+	pkg := "pkg/module/http2"
+	ga := c.M(pkg, "MServerConn", "goAway")
+	ph := c.M(pkg, "MServerConn", "processHeaders")
+	if ga == nil || ph == nil {
+		c.Unresolved("C11.O6", "MServerConn.goAway / processHeaders")
+		return
+	}
+	// (a) first writeUint32 after startWrite(FrameGoAway)
+	ws := callsIn(ga, false, func(cc *ssa.CallCommon) bool { return methodName(cc) == "writeUint32" })
+	okID := false
+	if len(ws) >= 1 {
+		v := ws[0].Instr.Common().Args[len(ws[0].Instr.Common().Args)-1]
+		okID = onlyFromField(v, "maxClientStreamID", 0)
+	}
+	pos := ga.Pos()
+	if len(ws) >= 1 {
+		pos = ws[0].Instr.Pos()
+	}
+	c.Check("C11.O6", funcKey(ga)+":last-stream-id", pos, okID, "GOAWAY carries maxClientStreamID", "the GOAWAY does not always carry the highest stream id MOSN accepted: a client whose request MOSN drops after the GOAWAY is told the request is being processed and waits for a reply that never comes")
+	// (c) idempotent
+	idem := false
+	for _, in := range instrsWhere(ga, isReturn) {
+		for _, g := range guardsAt(in.Block()) {
+			if _, f, _, ok := loadedField(g.Cond); ok && f == "inGoAway" && g.True {
+				idem = true
+			}
+		}
+	}
+	c.Check("C11.O6", funcKey(ga)+":idempotent", ga.Pos(), idem, "a second goAway returns without writing", "goAway can send more than one GOAWAY")
+	// (b) ignore branch creates nothing
+	news := callsIn(ph, false, func(cc *ssa.CallCommon) bool { return methodName(cc) == "newStream" })
+	okIgnore := false
+	for _, in := range instrsWhere(ph, isReturn) {
+		for _, g := range guardsAt(in.Block()) {
+			if _, f, _, ok := loadedField(g.Cond); ok && f == "inGoAway" && g.True {
+				okIgnore = true
+				for _, n := range news {
+					if instrDominates(n.Instr, in) {
+						okIgnore = false
+					}
+				}
+			}
+		}
+	}
+	c.Check("C11.O6", funcKey(ph)+":headers-after-goaway-ignored", ph.Pos(), okIgnore && len(news) >= 1, "HEADERS arriving after GOAWAY create no stream", "HEADERS arriving after GOAWAY are not consistently ignored")
+}
+
+// onlyFromField: v is computed only from loads of the named field and constants (masks, conversions).
+func onlyFromField(v ssa.Value, field string, d int) bool {
+	if d > 6 {
+		return false
+	}
+	switch x := v.(type) {
+	case *ssa.UnOp:
+		_, f, _, ok := loadedField(x)
+		return ok && f == field
+	case *ssa.BinOp:
+		l, r := x.X, x.Y
+		_, lc := l.(*ssa.Const)
+		_, rc := r.(*ssa.Const)
+		switch {
+		case rc && !lc:
+			return onlyFromField(l, field, d+1)
+		case lc && !rc:
+			return onlyFromField(r, field, d+1)
+		}
+		return false
+	case *ssa.Convert:
+		return onlyFromField(x.X, field, d+1)
+	case *ssa.ChangeType:
+		return onlyFromField(x.X, field, d+1)
+	}
+	return false
 }
